@@ -413,14 +413,19 @@ class Impl:
             return ps.ObjectiveMaximizeIndicator(target=self.inds[nval(o[1])], weight=zval(o[2]))
         raise ValueError('unknown objective %r' % (h,))
 
-    def run(self, ops, mid_init_at=None):
+    def run(self, ops, mid_init_at=None, early_solver_kw=None):
         """Execute until the first rejected op. Returns ('ok',) or ('err', idx, exc type).
         mid_init_at = k: after op k a solver of the problem built so far is created, initialised and thrown away (an
         intermediate solve / export must not change what the problem means once it is extended)"""
+        self.early_solver = None
         for i, op in enumerate(ops):
             try:
                 with contextlib.redirect_stdout(io.StringIO()):
                     self.exec_op(op)
+                    if early_solver_kw is not None and self.early_solver is None and self.pb is not None:
+                        # the solver object is created as soon as the problem exists (not initialised): what it does later
+                        # depends on the problem as it is when it is initialised
+                        self.early_solver = ps.SchedulingSolver(problem=self.pb, **early_solver_kw)
                     if mid_init_at is not None and i == mid_init_at and self.pb is not None:
                         try:
                             ps.SchedulingSolver(problem=self.pb).initialize()
